@@ -16,7 +16,7 @@ DEFAULT = dict(
     max_depth=[1, 2, 2], ncallers=[1, 1, 2, 3], caller_len=[1, 2, 3], p_caller_await=0.7, p_caller_pause=0.3,
     event_timeout=300.0, short_timeouts=None, p_stall=0.08, shuffle_order=True, rotate_p=0.0,
     own_bus_only=False, long_p=0.0, caller_idle_p=0.0, explicit_parent_p=0.0, redispatch_caller_p=0.0,
-    results_p=0.0, p_await_any=0.0, p_stop_fault=0.0, p_cancel_runloop=0.0, p_spawn=0.0, p_late=0.0, p_raise_cancelled=0.0,
+    results_p=0.0, p_await_any=0.0, p_stop_fault=0.0, p_cancel_runloop=0.0, p_spawn=0.0, p_cleanup=0.0, p_late=0.0, p_raise_cancelled=0.0,
     exc_kinds=['ValueError', 'KeyError', 'Boom', 'RuntimeError'], p_ret_container=0.0,
 )
 
@@ -190,6 +190,9 @@ def gen_bus(seed: int, knobs: dict, profile: str) -> dict:
                        'prog': prog(True, kind in ('sync', 'smethod', 'sstatic'), own=b)})
             if r.random() < K['p_late']:
                 hs[-1]['late'] = True
+            if K['p_cleanup'] and kind in ('async', 'amethod', 'aclassmethod') and r.random() < K['p_cleanup']:
+                # a handler that needs time to unwind when it is cancelled (try/finally with awaits in it)
+                hs[-1]['cleanup'] = r.choice([0.15, 0.3, 0.5])
             if r.random() < K['p_ret_container']:
                 hi_ = len(sc['handlers']) + len(hs)
                 hs[-1]['ret'] = r.choice([[hi_, hi_ + 100], {f'k{hi_}': hi_}, [f'x{hi_}']])
@@ -264,8 +267,8 @@ PROFILES = {
     'late_reg': dict(nb=[1, 1, 2], p_late=0.5, p_wild=0.6, ntypes=[1, 2], ncallers=[1, 2], caller_len=[3, 4, 5], p_caller_await=0.7, p_caller_pause=0.2),
     'multi_stop': dict(nb=[3, 3, 4], p_stop_fault=1.0, ncallers=[2, 3], caller_len=[2, 3, 4], p_caller_await=0.3, p_pause=0.35, p_dispatch=0.3, p_dawait=0.2),
     'errors': dict(nb=[1, 2, 3], p_raise=0.2, p_return_exc=0.1, results_p=0.4, fwd='some', p_ret_container=0.4,
-                   exc_kinds=['ValueError', 'KeyError', 'Boom', 'RuntimeError', 'QueueShutDown', 'QueueFull', 'LoopClosed', 'TimeoutError', 'OSError']),
-    'errors_parallel': dict(exc_kinds=['ValueError', 'Boom', 'RuntimeError', 'QueueShutDown', 'QueueFull', 'LoopClosed'], nb=[1, 1, 2], parallel_p=0.8, p_raise=0.25, p_return_exc=0.1, results_p=0.3, handlers_per_bus=[2, 3, 3], p_wild=0.5, p_pause=0.35),
+                   exc_kinds=['ValueError', 'KeyError', 'Boom', 'RuntimeError', 'QueueShutDown', 'QueueFull', 'LoopClosed', 'TimeoutError', 'OSError', 'Chained', 'Chained']),
+    'errors_parallel': dict(exc_kinds=['ValueError', 'Boom', 'RuntimeError', 'QueueShutDown', 'QueueFull', 'LoopClosed', 'Chained'], nb=[1, 1, 2], parallel_p=0.8, p_raise=0.25, p_return_exc=0.1, results_p=0.3, handlers_per_bus=[2, 3, 3], p_wild=0.5, p_pause=0.35),
     'lineage': dict(nb=[1, 2, 3], parallel_p=0.4, p_readbus=0.2, explicit_parent_p=0.3, fwd='some', p_dispatch=0.35),
     'stalls': dict(nb=[1, 2, 3], p_stall=0.8, p_burn=0.1),
     'deep': dict(nb=[1, 2], max_depth=[3], p_dawait=0.4, p_wild=0.15, handlers_per_bus=[1, 2], prog_len=[0, 1, 1, 2], ncallers=[1, 1, 2], caller_len=[1, 2]),
@@ -279,6 +282,10 @@ PROFILES = {
                           ncallers=[1, 2, 3], caller_len=[2, 3, 4], p_caller_await=0.4),
     'timeouts_clean': dict(nb=[1], own_bus_only=True, ncallers=[1], p_caller_await=1.0, short_timeouts=(0.5, [0.05, 0.1, 0.5, 1.0]), long_p=0.3,
                            p_pause=0.5, p_dispatch=0.0, p_dawait=0.0, max_depth=[1]),
+    'timeouts_cleanup': dict(nb=[2, 3], short_timeouts=(0.6, [0.05, 0.1, 0.15, 0.5]), long_p=0.3, p_pause=0.5, p_dawait=0.2, p_dispatch=0.15, p_cleanup=0.6,
+                             ncallers=[2, 3], p_caller_await=0.3, max_depth=[1, 2]),
+    'topo_timeouts': dict(nb=[2, 3, 4], fwd='topo', short_timeouts=(0.7, [0.05, 0.1, 0.15]), long_p=0.4, p_pause=1.0, p_yield=0.0, p_dispatch=0.0, p_dawait=0.0,
+                          prog_len=[0, 1, 1, 2], handlers_per_bus=[1, 2, 2], ncallers=[1, 2], p_caller_await=0.5),
     'late_child': dict(nb=[1, 2, 3], p_spawn=0.3, p_dispatch=0.25, p_dawait=0.2, p_pause=0.25, ncallers=[1, 2], p_caller_await=0.6, fwd='some'),
     'idle_gap': dict(nb=[2, 2, 3], p_gap=0.45, p_pause=0.35, long_p=0.3, prog_len=[1, 2, 2, 3], p_dispatch=0.1, caller_idle_p=0.7, ncallers=[2, 3], p_caller_await=0.2, max_depth=[1, 2]),
     'idle_race': dict(nb=[1, 2], caller_idle_p=0.6, ncallers=[2, 3], p_caller_await=0.3, p_raise=0.05),
